@@ -119,6 +119,7 @@ def exec (s : St) (op : String) (a : List Nat) (obs : Option (List Nat)) : R (St
     pure (setD s a x, "")
   | "shuffle", [a, _seed] => do
     let src ← D a
+    require (src.numberOfElements > 0)
     match obs with
     | none => pure (s, "obs=MISSING")
     | some p =>
